@@ -23,48 +23,67 @@ pub struct Access {
     pub is_write: bool,
 }
 
-static mut DEPTH: u32 = 0;
-static mut ON: bool = false;
-static mut STEP: u32 = 0;
-static mut CRASH_AT: u32 = u32::MAX;
-static mut ENV_AT: u32 = u32::MAX;
-static mut ENV: Option<fn()> = None;
-static mut TRACE_ON: bool = false;
-static mut TRACE_N: usize = 0;
-static mut TRACE: [Access; TR] = [Access { addr: 0, len: 0, kind: 0, is_write: false }; TR];
+// All hook state lives in ONE static with a distinctive non-zero field: Kani merges a `static mut` whose initialiser
+// is all-zero (or otherwise common) with same-content constant allocations, which would alias it with unrelated
+// constants (observed: `static mut X: usize = 0` became the capacity of every empty Vec).
+struct State {
+    magic: u64,
+    depth: u32,
+    on: bool,
+    step: u32,
+    crash_at: u32,
+    env_at: u32,
+    env: Option<fn()>,
+    trace_on: bool,
+    trace_n: usize,
+    trace: [Access; TR],
+}
+
+static mut H: State = State {
+    magic: 0x5a5a_4855_4b31_7f03,
+    depth: 0,
+    on: false,
+    step: 0,
+    crash_at: u32::MAX,
+    env_at: u32::MAX,
+    env: None,
+    trace_on: false,
+    trace_n: 0,
+    trace: [Access { addr: 0, len: 0, kind: 0, is_write: false }; TR],
+};
 
 pub struct Guard;
 
 impl Drop for Guard {
     fn drop(&mut self) {
-        unsafe { DEPTH -= 1 }
+        unsafe { H.depth -= 1 }
     }
 }
 
 #[inline(never)]
 fn enter(ptr: *mut u8, pos: i32, len: usize, kind: u8, is_write: bool) -> Option<Guard> {
     unsafe {
-        if !ON || DEPTH > 0 {
-            DEPTH += 1;
+        if !H.on || H.depth > 0 {
+            H.depth += 1;
             return Some(Guard);
         }
-        let n = STEP;
-        STEP += 1;
-        if n == ENV_AT {
-            if let Some(f) = ENV {
-                ON = false;
+        let n = H.step;
+        H.step += 1;
+        if n == H.env_at {
+            if let Some(f) = H.env {
+                H.on = false;
                 f();
-                ON = true;
+                H.on = true;
             }
         }
-        if TRACE_ON && TRACE_N < TR {
-            TRACE[TRACE_N] = Access { addr: (ptr as usize).wrapping_add(pos as isize as usize), len, kind, is_write };
-            TRACE_N += 1;
+        if H.trace_on && H.trace_n < TR {
+            H.trace[H.trace_n] = Access { addr: (ptr as usize).wrapping_add(pos as isize as usize), len, kind, is_write };
+            H.trace_n += 1;
         }
-        if is_write && n >= CRASH_AT {
+        if is_write && n >= H.crash_at {
             return None;
         }
-        DEPTH += 1;
+        H.depth += 1;
         Some(Guard)
     }
 }
@@ -83,31 +102,31 @@ pub fn write(ptr: *mut u8, pos: i32, len: usize, kind: u8) -> Option<Guard> {
 /// Start observing the operation under test.
 pub fn begin(crash_at: u32, env_at: u32, env: Option<fn()>, trace: bool) {
     unsafe {
-        STEP = 0;
-        CRASH_AT = crash_at;
-        ENV_AT = env_at;
-        ENV = env;
-        TRACE_ON = trace;
-        TRACE_N = 0;
-        ON = true;
+        H.step = 0;
+        H.crash_at = crash_at;
+        H.env_at = env_at;
+        H.env = env;
+        H.trace_on = trace;
+        H.trace_n = 0;
+        H.on = true;
     }
 }
 
 /// Stop observing; returns the number of top-level accesses the operation performed.
 pub fn end() -> u32 {
     unsafe {
-        ON = false;
-        CRASH_AT = u32::MAX;
-        ENV_AT = u32::MAX;
-        ENV = None;
-        STEP
+        H.on = false;
+        H.crash_at = u32::MAX;
+        H.env_at = u32::MAX;
+        H.env = None;
+        H.step
     }
 }
 
 pub fn trace_len() -> usize {
-    unsafe { TRACE_N }
+    unsafe { H.trace_n }
 }
 
 pub fn trace_at(i: usize) -> Access {
-    unsafe { TRACE[i] }
+    unsafe { H.trace[i] }
 }
